@@ -1,3 +1,4 @@
+import errno
 import os
 from abc import ABCMeta, abstractmethod
 from trashcli.compat import Protocol
@@ -62,7 +63,18 @@ class RealRestoreWriteFileSystem(RestoreWriteFileSystem):
         return fs.mkdirs(path)
 
     def move(self, path, dest):
-        return fs.move(path, dest)
+        try:
+            return fs.move(path, dest)
+        except (IOError, OSError) as e:
+            # --overwrite: a directory, or a symbolic link coming from another
+            # file system, cannot be renamed over an existing non-directory
+            # ("File exists"); take that out of the way and try again
+            if e.errno == errno.EEXIST and (
+                    os.path.islink(dest) or (os.path.lexists(dest)
+                                             and not os.path.isdir(dest))):
+                os.remove(dest)
+                return fs.move(path, dest)
+            raise
 
     def remove_file(self, path):
         return fs.remove_file(path)
